@@ -19,19 +19,46 @@ from props.common import run_property, pure
 PROP = 'C18'
 
 class SeqTask(ModelFuture):
-    """one connection's task: processes its lines one after the other (one event per loop iteration)"""
+    """one connection's task: the real loop - one event per MainState::process call (a queued message to forward, or the
+    next input line) - until its input lines are consumed"""
     def __init__(self, w, conn, lines):
-        self.w, self.conn, self.lines = w, conn, list(lines)
+        self.w, self.conn = w, conn
+        for ln in lines:
+            conn['src'].items.append(('line', mkstring(ln)))
         self.cur = None
-        self.cx = Ref(Cell(Opaque('Context')))
     def poll(self, M, cx):
         while True:
             if self.cur is None:
-                if not self.lines: return ready(Tup())
-                self.cur = Cell(self.w.start_process(self.conn, self.lines.pop(0)))
+                if not self.conn['src'].items: return ready(Tup())
+                self.cur = Cell(self.w.start_process(self.conn))
             r = poll_future(M, Ref(self.cur), cx)
             if r.variant != 0: return pending()
             self.cur = None
+            q = self.conn['quit'].cell.v.fields[0]
+            if isinstance(q, int) and q != 0:
+                del self.conn['src'].items[:]
+                return ready(Tup())
+
+def drain(M, w, conns):
+    """every connection forwards what is queued for it (its task keeps running after the scenario)"""
+    for k, cn in conns.items():
+        q = cn['quit'].cell.v.fields[0]
+        if isinstance(q, int) and q != 0: continue
+        guard = 0
+        while cn['ch'].q and guard < 50:
+            guard += 1
+            w.run_to_completion(w.start_process(cn))
+
+def merges(counts):
+    """all orders of the commands that respect every connection's own order: sequences of connection indexes"""
+    out = []
+    def rec(rem, acc):
+        if not any(rem): out.append(tuple(acc)); return
+        for i, r in enumerate(rem):
+            if r:
+                rem[i] -= 1; acc.append(i); rec(rem, acc); acc.pop(); rem[i] += 1
+    rec(list(counts), [])
+    return out
 
 def build(M, prog, case):
     spec = Spec(**case.get('spec', {}))
@@ -47,15 +74,35 @@ def observe(prog, w, conns):
     class C: pass
     c = C(); c.pre = snap; c.post = snap; c.M = None
     rel = relations(snap, None)
-    outs = {k: [list(s.data) for s in cn['src'].written] for k, cn in conns.items()}
-    queues = {n: [list(s.data) for s in ch.log] for n, ch in w.queues.items()}
+    # replies to the connection's own commands (in order), separately from what others queued for it
+    outs = {}
+    for k, cn in conns.items():
+        fwd = set(id(s) for s in cn['ch'].log)
+        outs[k] = [list(s.data) for s in cn['src'].written if id(s) not in fwd]
+    # per receiver and sender: the messages in the order they were queued
+    queues = {}
+    for n, ch in w.queues.items():
+        for s in ch.log:
+            d = list(s.data)
+            snd = bytes(x for x in d[:d.index(32)] if isinstance(x, int)) if 32 in d else b''
+            queues.setdefault((n, snd), []).append(d)
     auth = {}
     for k, cn in conns.items():
         us = cn['cell'].v.fields[prog.struct_field('ConnState', 'user_state')]
         auth[k] = us.fields[prog.struct_field('ConnUserState', 'authenticated')]
     return rel, outs, queues, auth
 
+import re as _re
+def _norm(line):
+    """a numeric's first parameter is the name the server currently has for the client (nick, user name or host): not part of the outcome"""
+    if all(isinstance(x, int) for x in line[:60]):
+        txt = bytes(x for x in line if isinstance(x, int))
+        m = _re.match(rb'(:\S+ \d\d\d) \S+( .*)?$', txt)
+        if m and len(txt) == len(line): return list(m.group(1) + b' *' + (m.group(2) or b''))
+    return line
+
 def same_lists(a, b):
+    a = [_norm(x) for x in a]; b = [_norm(x) for x in b]
     if len(a) != len(b): return False
     for x, y in zip(a, b):
         if len(x) != len(y): return False
@@ -89,16 +136,21 @@ def p_interleave(prog, case, budget):
         w, conns = build(M, prog, case)
         sch = Scheduler(M, max_polls=case.get('max_polls', 60))
         sch.run([dict(name=a['key'], fut=SeqTask(w, conns[a['key']], a['lines'])) for a in actors])
+        drain(M, w, conns)
         inter = observe(prog, w, conns)
         trace = list(sch.trace)
         # every serial order
         serial = []
-        for order in itertools.permutations(range(len(actors))):
+        for order in merges([len(a['lines']) for a in actors]):
             w2, conns2 = build(M, prog, case)
+            cx = Ref(Cell(Opaque('Context')))
+            nxt = [0] * len(actors)
             for i in order:
                 a = actors[i]
-                for ln in a['lines']:
-                    w2.process_line(conns2[a['key']], ln)
+                t = SeqTask(w2, conns2[a['key']], [a['lines'][nxt[i]]]); nxt[i] += 1
+                r = t.poll(M, cx)
+                if r.variant != 0: raise BoundExceeded('a serial run blocks')
+            drain(M, w2, conns2)
             serial.append((order, observe(prog, w2, conns2)))
         return inter, serial, trace
     def on(r):
@@ -118,12 +170,12 @@ def p_interleave(prog, case, budget):
             outs = {k: [buf_text(l) for l in v_][:6] for k, v_ in inter[1].items()}
             findings.append(dict(kind='obligation', site='not-serializable', what=f'{case["name"]}: the outcome of schedule {trace} equals no serial order of the commands',
                                  predicate=case['name'], witness=dict(case=case['name'], schedule=[str(t) for t in trace], outputs=outs,
-                                                                     queues={k: [buf_text(l) for l in v_][:4] for k, v_ in inter[2].items() if v_}, profile=prog.profile)))
+                                                                     queues={str(k): [buf_text(l) for l in v_][:4] for k, v_ in inter[2].items() if v_}, profile=prog.profile)))
         for name, fn in case.get('extra', []):
             t = EXTRA[fn](prog, case, inter)
             v, md = check_valid(M, t, st)
             if not v:
-                findings.append(dict(kind='obligation', site=name, what=f'{case["name"]}: {name} (schedule {trace})', predicate=name,
+                findings.append(dict(kind='obligation', site=name, what=f'{case["name"]}: {name} (schedule {trace})', predicate=name + '|' + case['name'],
                                      witness=dict(case=case['name'], schedule=[str(t_) for t_ in trace], profile=prog.profile)))
         if len(samples) < 1:
             samples.append(dict(case=case['name'], schedule=[str(t) for t in trace][:12], serial_orders=len(serial)))
@@ -143,7 +195,7 @@ def x_one_owner(prog, case, inter):
     keys = [a['key'] for a in case['actors'] if not a.get('registered', True)]
     owners = [auth[k] for k in keys]
     # exactly one of the claimants is authenticated and the nick is registered
-    one = Or(*[And(o, *[Not(p) for p in owners if p is not o]) for o in owners])
+    one = Or(*[And(o, *[Not(p) for j, p in enumerate(owners) if j != i]) for i, o in enumerate(owners)])
     return And(one, rel.get(('user', case['claimed']), False))
 
 @extra('limit_kept')
@@ -178,8 +230,8 @@ def make_cases(tier, profile):
         spec=dict(password='goodpw'), extra=[('one_owner', 'one_owner')], claimed='zed')
     add('registered NICK against a registering connection', [R('alice', 'NICK zed'), U('c2', None, 'u2', 'NICK zed')])
     add('two first JOINs of a new channel', [R('alice', 'JOIN #new'), R('bob', 'JOIN #new')], extra=[('one_founder', 'one_founder')], created='#new')
-    add('two JOINs into the last free place of a +l channel', [R('alice', 'JOIN #x'), R('bob', 'JOIN #x')], partial=dict(only_carol, **{'haslimit_#x': True}),
-        spec=dict(sym_limit=True), fixed_limit=2, extra=[('limit_kept', 'limit_kept')], limited=('#x', 2))
+    add('two JOINs into the last free place of a +l channel', [R('alice', 'JOIN #x'), R('bob', 'JOIN #x')], partial=dict(only_carol, **{'haslimit_#x': True, 'limit_#x': 2}),
+        spec=dict(sym_limit=True), extra=[('limit_kept', 'limit_kept')], limited=('#x', 2))
     add('two messages from one sender against a PART', [R('alice', 'PRIVMSG #x :one', 'PRIVMSG #x :two'), R('bob', 'PART #x')], partial=all_x)
     add('message to a nick against its NICK change', [R('alice', 'PRIVMSG bob :hi'), R('bob', 'NICK robert')], partial=all_x)
     add('KICK against a message of the victim', [R('alice', 'KICK #x bob'), R('bob', 'PRIVMSG #x :still here')], partial=dict(all_x, **{'operator_alice_#x': True}), spec=dict(sym_ranks=True))
@@ -196,10 +248,101 @@ BOUNDS = dict(connections='2 connections with 1-3 commands each (thorough: also 
               worlds='concrete small worlds per scenario (the scenarios of the statement: rival nick claims incl. password verification, first joins, last free place under +l, message vs PART/NICK/KICK/MODE/QUIT, per-connection order)',
               outside='pre-emption inside a poll between two non-awaiting statements (no shared state is touched outside the lock except message queues, which are FIFO per sender by the tokio contract); memory-model effects; more connections/commands than stated; data-race freedom is Rust\'s and tokio\'s')
 
+def native_stress(run, case, rounds=25):
+    """run the scenario concurrently against the real binary `rounds` times and evaluate the scenario's own oracle on what the sockets show"""
+    import threading, time as _t
+    from mirsym import ircreplay as R
+    from mirsym.world import Spec
+    spec = Spec(**case.get('spec', {}))
+    model = dict(case.get('partial') or {})
+    exe = run.snap.build_server(False)
+    hashes = {}
+    if spec.password: hashes[spec.password] = R.password_hash(exe, spec.password)
+    kinds = [e[1] for e in case.get('extra', [])]
+    seen = []
+    for rd in range(rounds):
+        nicks, need_helper, setup = R.plan(spec, model)
+        srv = R.Server(exe, R.make_config(spec, model, hashes, R.HELPER if need_helper else None), run.snap.dir, tag='stress')
+        clients = {}
+        try:
+            def reg(n):
+                c = R.Client(srv.port, n); clients[n] = c
+                if spec.password: c.send('PASS ' + spec.password)
+                c.send(f'NICK {n}'); c.send(f'USER {n} 0 * :Real {n}')
+                return any(b' 001 ' in l for l in c.barrier())
+            for n in ([R.HELPER] if need_helper else []) + nicks:
+                if not reg(n): return None, f'registration of {n} failed'
+            for n, line in setup:
+                clients[n].send(line); clients[n].barrier()
+            for n in nicks: clients[n].barrier()
+            acts = []
+            for a in case['actors']:
+                if a.get('registered', True): c = clients[a['key']]
+                else:
+                    c = R.Client(srv.port, a['key']); clients[a['key']] = c
+                    if a.get('password'): c.send('PASS ' + a['password'])
+                    if a.get('nick'): c.send('NICK ' + a['nick'])
+                    if a.get('name'): c.send(f'USER {a["name"]} 0 * :Real')
+                acts.append((a, c))
+            _t.sleep(0.15)
+            bar = threading.Barrier(len(acts))
+            def go(a, c):
+                bar.wait()
+                for ln in a['lines']: c.send(ln)
+            th = [threading.Thread(target=go, args=x) for x in acts]
+            for t in th: t.start()
+            for t in th: t.join()
+            _t.sleep(0.4)
+            got = {a['key']: c._read_lines(0.5) for a, c in acts}
+            bad = None
+            if 'one_owner' in kinds:
+                winners = [k for k, ls in got.items() if any(b' 001 ' in l for l in ls)]
+                if len(winners) != 1: bad = f'{len(winners)} connections were welcomed under the nick'
+                for a, c in acts:
+                    if a['key'] not in winners and not c.eof:
+                        c.send('LUSERS'); _t.sleep(0.2)
+                        ans = c._read_lines(0.5)
+                        if not any(b' 451 ' in l for l in ans): bad = f'the refused connection {a["key"]} is served as a registered user: {ans[:2]}'
+            if 'one_founder' in kinds:
+                c = acts[0][1]; c.send('NAMES ' + case['created']); _t.sleep(0.2)
+                names = b' '.join(l for l in c._read_lines(0.5) if b' 353 ' in l)
+                if names.count(b'~') != 1: bad = f'{names.count(b"~")} founders: {names[:200]}'
+            if 'limit_kept' in kinds:
+                ch, lim = case['limited']
+                obs = [n for n in nicks if model.get(f'mem_{n}_{ch}')][0]
+                clients[obs].barrier(); clients[obs].send('NAMES ' + ch); _t.sleep(0.2)
+                ls = [l for l in clients[obs]._read_lines(0.5) if b' 353 ' in l]
+                cnt = sum(len(l.split(b' :', 1)[1].split()) for l in ls)
+                if cnt > lim: bad = f'{cnt} members on a channel limited to {lim}'
+            seen.append(bad)
+            if bad:
+                run.native_replays += 1
+                return True, f'round {rd}: {bad}'
+        finally:
+            for c in clients.values(): c.close()
+            srv.stop()
+    run.native_replays += rounds
+    return False, f'{rounds} concurrent native rounds showed no violation of {kinds}'
+
 def confirm(run, cands):
-    for f in cands:
+    done = set()
+    # scenarios with a wide native window (blocking password verification) first
+    for f in sorted(cands, key=lambda f: (0 if 'password' in f['witness'].get('case', '') else 1, f['site'] == 'not-serializable')):
         fi = Finding(PROP, f['kind'], f['site'], f['what'], f['witness'], role=dict(predicate=f.get('predicate', '')))
-        fi.confirmed = None; fi.native = 'a schedule cannot be forced on the real runtime from outside: interleaving counterexamples are reported as inconclusive (exit 2) unless a deterministic native replay exists'
+        case = run.cases_by_name.get(f['witness'].get('case'))
+        if case is not None and case.get('extra') and f['site'] != 'not-serializable' and case['name'] not in done:
+            done.add(case['name'])
+            try:
+                okk, text = native_stress(run, case)
+            except Exception as e:
+                okk, text = None, 'native stress run failed: ' + repr(e)[:300]
+            fi.confirmed = True if okk else None
+            fi.native = text
+            fi.replay = dict(kind='stress', case=case['name'])
+        else:
+            fi.confirmed = None
+            fi.native = ('a schedule cannot be forced on the real runtime from outside; scenarios with a native oracle (one owner, one founder, limit) are confirmed by concurrent '
+                         'native rounds, the others are reported as inconclusive (exit 2)')
         run.add_finding(fi)
 
 if __name__ == '__main__':
